@@ -10,13 +10,14 @@ LEVEL = "exploration"
 RULE = ("Hypothesis-generated valid problems across all supported modes (deterministic / auto-detected / declared / "
         "specified noise in both documented spellings, with and without constraints, linear and log coordinates, small "
         "max_iter, tiny caches, sub-design budgets as a labelled minority) plus constructed rare paths (GP.fit "
-        "failures, non-finite GP prediction at the incumbent, every ES candidate infeasible). Oracle: BADS(...) and "
+        "failures, non-finite GP prediction at the incumbent, every ES candidate infeasible) plus the 'options' part: the same "
+        "problems with 1-3 of ~80 advanced options set to non-default values of the default's type. Oracle: BADS(...) and "
         "optimize() return an OptimizeResult; any escaping exception is a violation bucketed by (type, innermost pybads "
         "frame). Non-trivial = run in a non-default mode (noise, constraint, log transform or small budget) that executed "
         ">= 1 search step; distinct by scenario digest.")
 ASSUMPTIONS = [
     "generated targets are well behaved (finite real scalars, positive finite SDs); with thin/boundary constraint regions a ValueError that names the infeasible start is the contract (C02), not a crash",
-    "option switches documented as unsupported/unfinished (stobads, acq_hedge, periodic_vars, fun_values, output_fcn) are not generated",
+    "option values whose path announces itself as unimplemented (init_fun other than init_sobol, acq_hedge, periodic_vars, fun_values, output_fcn, plot, warp_func) are not generated; every other option the code reads is (scenario.ADV_OPTS, 1-3 non-default values per case in the 'options' part)",
 ]
 
 PROFILE = scenario.profile(
@@ -246,11 +247,36 @@ def body_steep(scn):
 
 
 def plan(tier):
-    return [("runs", 16), ("rare", 16), ("long", 16), ("steep", 16), ("logedge", 8)]
+    return [("runs", 16), ("rare", 16), ("long", 16), ("steep", 16), ("logedge", 8), ("options", 16), ("fitlik", 2)]
+
+
+N_OPT = {"quick": 320, "thorough": 6000}
+
+
+def body_options(scn):
+    out = body(scn)
+    out["labels"] = list(out["labels"]) + ["options"] + [f"opt:{n}" for n in scn.get("adv", [])]
+    return out
+
+
+def body_fitlik(scn):
+    """fit_lik = False (fixed GP noise) asks gpyreg for a 'delta' hyperprior that it does not have: known finding."""
+    out = body(scn)
+    for x in out["violations"]:
+        if x.get("exc_type") == "ValueError" and "Unknown hyperprior type delta" in x["detail"]:
+            x["clause"] = "crash:fit_lik=False"
+    out["labels"] = list(out["labels"]) + ["options", "opt:fit_lik"]
+    return out
 
 
 def run_part(res, part, tier, seed, shard, nshards):
     prof = PROFILE if tier == "quick" else PROFILE_T
+    if part == "options":
+        return runlevel.sweep(res, None, N_OPT[tier], seed + 4242, shard, nshards, body_options,
+                              strategy=scenario.with_adv_opts(dict(prof, p_subdesign=0.0, extra_budget=(10, 70))))
+    if part == "fitlik":
+        return runlevel.sweep(res, dict(prof, p_subdesign=0.0, extra_budget=(10, 30), extra_opts=(("fit_lik", (False,), 1.0),)),
+                              4 if tier == "quick" else 32, seed + 99, shard, nshards, body_fitlik)
     if part == "long":
         from hypothesis import strategies as st
         engine.hyp_sweep(res, st.integers(0, 2**32 - 1), body_long, runlevel.shard_count(N_LONG[tier], shard, nshards), seed * 1000 + 600 + shard,
@@ -270,8 +296,10 @@ def minimise(part, tier, sig, case, seed):
     mr = 12 if tier == "quick" else 40
     if part == "long":
         return {"case": case, "note": "problem sub-seed (a single integer)"}
-    if part in ("runs", "steep", "logedge"):
+    if part in ("runs", "steep", "logedge", "options"):
         return runlevel.field_minimise(case, sig, body, max_runs=mr)
+    if part == "fitlik":
+        return runlevel.field_minimise(case, sig, body_fitlik, max_runs=mr)
 
     def simp(c):
         for d, s2 in scenario.simplifications(c["scn"]):
@@ -284,6 +312,8 @@ def replay(part, case):
         return body_long(case if isinstance(case, dict) else int(case))["violations"]
     if part == "rare":
         return runlevel.replay_body(body_rare_safe, case)
+    if part == "fitlik":
+        return runlevel.replay_body(body_fitlik, case)
     return runlevel.replay_body(body, case)
 
 
